@@ -46,24 +46,46 @@ func (q *MultiOpQueryer) Subscribe(req *requests.Request, closeCh <-chan struct{
 	errCh := make(chan error)
 	defer close(errCh)
 
+	// closed when the reader goroutine ends, whatever the reason
+	doneCh := make(chan struct{})
+
 	go func() {
 		defer func() {
 			recover()
 		}()
-		<-closeCh
+		// closeCh is signalled (a value or its closing) by the subscriber, doneCh by the reader
+		select {
+		case <-closeCh:
+		case <-doneCh:
+		}
 		verifhook.At("q.sub.closer.woke", resCh)
 		conn.Close()
 	}()
+
+	// send hands a response to the subscriber unless it has gone away meanwhile
+	send := func(resp *requests.Response) bool {
+		select {
+		case resCh <- resp:
+			return true
+		case <-closeCh:
+			return false
+		}
+	}
+
+	established := false
 
 	go func() {
 		defer func() {
 			defer func() {
 				recover()
 			}()
+			defer close(doneCh)
 			conn.Close()
 			verifhook.At("q.sub.reader.exit", resCh)
-			// indicate that it's done
-			resCh <- nil
+			// indicate that it's done, nobody listens if the subscription was never established
+			if established {
+				send(nil)
+			}
 		}()
 
 		bInitMsg, err := json.Marshal(requests.ClientSubMsg{
@@ -96,6 +118,7 @@ func (q *MultiOpQueryer) Subscribe(req *requests.Request, closeCh <-chan struct{
 		}
 
 		// init proccess is done
+		established = true
 		errCh <- nil
 
 		for {
@@ -111,8 +134,10 @@ func (q *MultiOpQueryer) Subscribe(req *requests.Request, closeCh <-chan struct{
 				if innerErr := json.Unmarshal(msg, &serverErrorResp); innerErr != nil {
 					return
 				}
-				resCh <- &requests.Response{
+				if !send(&requests.Response{
 					Errors: serverErrorResp.Payload,
+				}) {
+					return
 				}
 				continue
 			}
@@ -125,7 +150,9 @@ func (q *MultiOpQueryer) Subscribe(req *requests.Request, closeCh <-chan struct{
 				return
 			case requests.SubData:
 				verifhook.At("q.sub.reader.before_send", resCh)
-				resCh <- serverResp.Payload
+				if !send(serverResp.Payload) {
+					return
+				}
 			}
 		}
 	}()
